@@ -495,7 +495,8 @@ class Interp:
             else:
                 self.emit(label, 'levels', [v for _, v in r.levels])
         elif h == 'transfer':
-            self.emit(label, 'tstart', [s[1]])
+            self.emit(label, 'tstart', [s[1], 0 if s[3] is None else 1] + tpair(s[2], self.kind)
+                      + ([0, 1] if s[3] is None else tpair(s[3], self.kind)))
             try:
                 await self.pipes[s[1]].transfer(self.tv(s[2]), None if s[3] is None else self.tv(s[3]))
             except BaseException:
